@@ -32,7 +32,7 @@ static double nv_accumulate_op(NV_ELEM* first, NV_ELEM* last, double init)
     __CPROVER_assume(0 <= k && k < n);
     double acc = nv_nondet_double();
     double r = mean_op(acc, first[k]);
-    __CPROVER_assert(NV_SAME(r, NV_FADD(acc, (double)first[k])), "mean: every step of the fold adds the element, converted to scalar_t, to the scalar_t accumulator");
+    __CPROVER_assert(NV_SAME(r, NV_FADD(acc, (double)first[k])) || NV_SAME(r, NV_FADD((double)first[k], acc)) /* IEEE + is commutative */, "mean: every step of the fold adds the element, converted to scalar_t, to the scalar_t accumulator");
   }
   return __CPROVER_uninterpreted_scalar_sum(first - nv_base, last - nv_base);
 }
@@ -82,4 +82,4 @@ __CPROVER_requires(NV_ARG_hist_mean_0 == nv_base + nv_bo && NV_ARG_hist_mean_1 =
 __CPROVER_assigns() \
 __CPROVER_ensures(NV_SAME(__CPROVER_return_value, NV_FDIV(__CPROVER_uninterpreted_scalar_sum(nv_bo, nv_eo), (double)(nv_eo - nv_bo))))
 /* the lambda on its own: acc + scalar_t(value), computed in scalar_t */
-#define NV_CONTRACT_mean_op __CPROVER_assigns() __CPROVER_ensures(NV_SAME(__CPROVER_return_value, NV_FADD(NV_ARG_mean_op_0, (double)NV_ARG_mean_op_1)))
+#define NV_CONTRACT_mean_op __CPROVER_assigns() __CPROVER_ensures(NV_SAME(__CPROVER_return_value, NV_FADD(NV_ARG_mean_op_0, (double)NV_ARG_mean_op_1)) || NV_SAME(__CPROVER_return_value, NV_FADD((double)NV_ARG_mean_op_1, NV_ARG_mean_op_0)))
